@@ -371,6 +371,7 @@ static void parse_values (void *buf, int T, long long n, int t0)
 		}
 }
 static int fmode = 0 ;	/* 0 : floats as bit patterns ; 1 : floats as dyadic [m,e] */
+static int nodata = 0 ;	/* scenario option : do not log sample values (hostile input : only counts and positions are judged) */
 static void ev_values (const char *k, const void *buf, int T, long long n)
 {	fprintf (evf, ",\"%s\":[", k) ;
 	for (long long i = 0 ; i < n ; i++)
@@ -517,7 +518,7 @@ static void ev_info (const SF_INFO *in)
 {	ev_int ("fr", in->frames) ; ev_int ("rate", in->samplerate) ; ev_int ("ch", in->channels) ;
 	ev_int ("fmt", in->format) ; ev_int ("sec", in->sections) ; ev_int ("skb", in->seekable) ;
 	/* frames above 2^31-1 cannot be carried in a TLC integer : flag them */
-	ev_int ("frbig", in->frames > 2147483647LL || in->frames < 0 ? 1 : 0) ;
+	ev_int ("frbig", in->frames > 2147483647LL ? 1 : 0) ; ev_int ("frneg", in->frames < 0 ? 1 : 0) ;
 }
 
 /* files of the path route stay on disk for the whole scenario (SD2 keeps its resource fork next to the data file) */
@@ -594,22 +595,34 @@ static void do_open (void)
 	{	ev_info (&H->info) ; ev_err (h) ; ev_state (h) ; }
 	else
 	{	/* a failed open must leave nothing behind */
+		/* pipe route first : stop the helper thread (it owns a small heap block and the other end of the pipe) */
+		if (H->th_on)
+		{	if (route == R_PIPE && mode == SFM_READ)
+			{	unsigned char b [4096] ; int f2 = H->pfd [0] ;
+				if (fcntl (f2, F_GETFD) != -1) { while (read (f2, b, sizeof (b)) > 0) { } close (f2) ; }
+				}
+			else if (route == R_PIPE && fcntl (H->fd, F_GETFD) != -1) close (H->fd) ;
+			pthread_join (H->th, NULL) ; H->th_on = 0 ;
+			}
 		int fdl = count_fds () - fds_before ;
-		if (route == R_FD || route == R_EMB || route == R_PIPE)
+		if (route == R_FD || route == R_EMB)
 		{	/* close_desc true : the library may or may not have closed the descriptor on failure */
 			if (fcntl (H->fd, F_GETFD) != -1) { close (H->fd) ; } else fdl += 1 ;
 			}
-		ev_int ("fdleak", fdl) ; ev_int ("heapleak", heap_now () - heap_before) ;
+		/* (pipe route : both ends are gone by now, descriptor accounting is not meaningful here) */
+		ev_int ("fdleak", route == R_PIPE ? 0 : fdl) ; ev_int ("heapleak", heap_now () - heap_before) ;
 		if (route == R_FDK && H->fd >= 0) close (H->fd) ;
 		if (H->dupfd >= 0) { close (H->dupfd) ; H->dupfd = -1 ; }
-		if (H->th_on) { if (route == R_PIPE && mode == SFM_READ) { /* feeder may block : drain */ unsigned char b [4096] ; int f2 = H->pfd [0] ; if (fcntl (f2, F_GETFD) != -1) { while (read (f2, b, sizeof (b)) > 0) ; close (f2) ; } } pthread_join (H->th, NULL) ; H->th_on = 0 ; }
 		}
 	ev_flen (h) ;
 	ev_end () ;
 }
 
+static void iters_reset (void) ;
+
 static void do_close (void)
 {	int h = (int) tokll (1) ; HND *H = &hnd [h] ;
+	iters_reset () ;	/* an iterator must not be used after its handle is closed */
 	if (!H->sf) return ;	/* the script closes a handle whose open failed : nothing to do, nothing to report */
 	cur_call = "close" ; cur_h = h ;
 	alarm (alarm_secs) ;
@@ -666,7 +679,8 @@ static void do_read (void)
 	ev_begin ("read", h) ; ev_str ("T", toks [2]) ; ev_str ("unit", toks [3]) ; ev_int ("n", n) ; ev_int ("ret", ret) ;
 	ev_int ("items", items) ;
 	long long shown = ritems ; if (shown > items) shown = items ; if (shown < 0) shown = 0 ;
-	ev_values ("out", g.ptr, T, shown) ;
+	ev_int ("outn", shown) ;
+	if (!nodata) ev_values ("out", g.ptr, T, shown) ;
 	/* tail of the requested region : all zero ? untouched ? */
 	int tz = 1, tu = 1 ; unsigned char *p = g.ptr ;
 	for (long long i = shown * isz ; i < g.bytes ; i++) { if (p [i] != 0) tz = 0 ; if (p [i] != 0xA5) tu = 0 ; }
@@ -701,7 +715,7 @@ static void do_write (void)
 	alarm (0) ;
 	ev_begin ("write", h) ; ev_str ("T", toks [2]) ; ev_str ("unit", toks [3]) ; ev_int ("n", n) ; ev_int ("ret", ret) ;
 	ev_int ("items", items) ;
-	ev_values ("v", buf, T, alloc_items) ;
+	if (!nodata) ev_values ("v", buf, T, alloc_items) ; else fprintf (evf, ",\"v\":[]") ;
 	ev_err (h) ; ev_state (h) ; ev_flen (h) ; ev_int ("io", io_count) ;
 	ev_end () ;
 	drv_bytes -= alloc_items * isz + 1 ; free (buf) ;
@@ -729,7 +743,8 @@ static void do_file (void)
 	else if (!strcmp (k, "copy"))
 	{	MEMFILE *src = &files [tokll (3)] ; mf_reserve (mf, src->len + 1) ; if (src->len) memcpy (mf->data, src->data, src->len) ; mf->len = src->len ; }
 	else if (!strcmp (k, "hex"))
-	{	const char *hx = ntok > 3 ? toks [3] : "" ; long long n = (long long) strlen (hx) / 2 ; mf_reserve (mf, n + 1) ;
+	{	const char *hx = ntok > 3 ? toks [3] : "" ; if (!strcmp (hx, "-")) hx = "" ;
+		long long n = (long long) strlen (hx) / 2 ; mf_reserve (mf, n + 1) ;
 		for (long long i = 0 ; i < n ; i++) { unsigned v ; sscanf (hx + 2 * i, "%2x", &v) ; mf->data [i] = (unsigned char) v ; }
 		mf->len = n ;
 		}
@@ -763,6 +778,7 @@ static void ev_dbl (const char *k, double x)
 }
 
 #include "sfdrive_cmd.inc"
+static void iters_reset (void) { memset (iters, 0, sizeof (iters)) ; }
 
 static void do_fault (void)
 {	/* fault at kind sticky   (at = 0 disarms ; counting restarts) */
@@ -829,7 +845,7 @@ int main (int argc, char **argv)
 			idx++ ; skipping = idx < from ;
 			if (skipping) continue ;
 			split (line) ;
-			scn_id = (int) tokll (1) ; seqno = 0 ; fmode = 0 ;
+			scn_id = (int) tokll (1) ; seqno = 0 ; fmode = 0 ; nodata = 0 ;
 			scn_tag [0] = 0 ;
 			base_heap = heap_now () ; base_fds = count_fds () ; base_tmp = count_tmp () ; io_count = 0 ; fault_at = 0 ; fault_hits = 0 ;
 			ev_begin ("reset", -1) ;
@@ -838,6 +854,7 @@ int main (int argc, char **argv)
 			for (int i = 2 ; i < ntok ; i++)
 			{	char *eq = strchr (toks [i], '=') ; if (!eq) continue ; *eq = 0 ;
 				if (!strcmp (toks [i], "fmode")) fmode = atoi (eq + 1) ;
+				if (!strcmp (toks [i], "nodata")) nodata = atoi (eq + 1) ;
 				char *endp ; long long v = strtoll (eq + 1, &endp, 0) ;
 				if (*endp == 0 && eq [1]) fprintf (evf, ",\"%s\":%lld", toks [i], v) ; else fprintf (evf, ",\"%s\":\"%s\"", toks [i], eq + 1) ;
 				}
